@@ -119,6 +119,8 @@ void useUtils()
 		auto h4 = lr.append(cb, []() { return true; });
 		lr.prepend(cb, [](int, const std::string &) { return true; });
 		lr.insert(cb, h4, []() { return false; });
+		dr.appendListener(1, cb, CondBothWays());
+		lr.append(cb, CondBothWays());
 		d.dispatch(1, 1, "x"); l(1, "x"); q.dispatch(1, 1, "x");
 	}
 	{
